@@ -21,6 +21,8 @@ class Forms(Part):
                 ["length", "true", "default", "trailing"],
                 ["length", "true", "default", "trailing"],
                 ["trailing"],
+                ["trailing-any"],
+                ["length", "true", "default", "trailing-any"],
                 ["length"],
                 ["true", "default"],
             ]
@@ -88,14 +90,17 @@ PROP = Property(
         "Generated: abstract message x a choice tape that drives the reference encoder's freedoms at every TLV node "
         "(length form minimal / long form in 1..8 octets / Active Directory's fixed 4-octet form; TRUE as any non-zero "
         "octet; DEFAULT FALSE components encoded explicitly; 0-2 unrecognised trailing elements - PRIVATE class or "
-        "context-specific numbers >= 12, low and high tag form, primitive or constructed - after the defined components "
-        "of every fixed-component SEQUENCE, never in SEQUENCE OF/SET OF). Oracle: the library decodes the bytes to the "
+        "context-specific numbers >= 12, low and high tag form, primitive or constructed, or ('trailing-any') any "
+        "universal / application / low context-specific tag except the tag of an ABSENT optional component at the end "
+        "of the enclosing type - after the defined components of every fixed-component SEQUENCE, never in SEQUENCE "
+        "OF/SET OF). Oracle: the library decodes the bytes to the "
         "abstract message that was encoded (same as its own minimal encoding decodes to). Non-trivial = at least one "
         "non-default knob actually applied; distinct by (message, bytes)."
     ),
     parts=[Forms()],
     assumptions=[
-        "trailing elements use tags that no component of the enclosing type uses",
+        "trailing elements never carry the tag of an optional component that is absent from the end of the enclosing "
+        "sequence (a decoder may read such an element as that component); every other tag is used",
         "reference encoder is self-tested against the reference decoder each run",
     ],
     selftest=_selftest,
